@@ -62,7 +62,9 @@ def run(ctx: Ctx):
             for name, exp in pr["oracle_model"].items():
                 got = pr["model"].get(name)
                 if exp is None:
+                    dist["values_outside_quantifier"] = dist.get("values_outside_quantifier", 0) + 1
                     continue
+                dist["values_compared_with_exact_oracle"] = dist.get("values_compared_with_exact_oracle", 0) + 1
                 if got is None or not glue.close(got, exp):
                     ctx.violation(f"compiled model returns {got!r} for state variable {name!r}, its update expression evaluates to {exp!r} (cse={cse})",
                                   {"definition": d, "cse": cse, "inputs": p, "observed": pr["model"], "expected": pr["oracle_model"]},
@@ -88,6 +90,8 @@ def run(ctx: Ctx):
                 if "_raised" in pa["model"] or "_raised" in pb["model"]:
                     continue
                 for name in pa["model"]:
+                    if pa["oracle_model"].get(name) is None:
+                        continue        # outside the quantifier (undefined / overflowing / ill-conditioned point)
                     if not glue.close(pa["model"][name], pb["model"][name]):
                         ctx.violation(f"common-subexpression elimination changes the value of {name!r}: {pa['model'][name]!r} (off) vs {pb['model'][name]!r} (on)",
                                       {"definition": jobs[2 * k]["defn"], "off": pa["model"], "on": pb["model"]}, key="cse-changes-value")
